@@ -334,5 +334,9 @@ func C05(tier string) {
 	if dropped.Load() > 0 {
 		r.Assume(fmt.Sprintf("%d generated files were rejected by the standard decoder and dropped", dropped.Load()))
 	}
+	if tier == "thorough" {
+		// configuration: 32-bit platform (the quick tier of this check, built for GOARCH=386)
+		subRunArch(r, "C05", "386")
+	}
 	r.Finish()
 }
